@@ -339,7 +339,8 @@ type caseState struct {
 	probes []string // names probed after every operation (norm off: every spelling)
 	pbuf   []string
 	kb     []byte
-	prefix string // "cookie-mid-collected/" once the object has held a parsed request with Cookie between other fields
+	prefix string // key prefix = round tag ("reread/" for a Read on a used object without Reset) + sticky tag
+	sticky string // "cookie-mid-collected/" once the object has held a parsed request with Cookie between other fields
 }
 
 // probeNames: which spelled names are looked up after each step.
@@ -493,7 +494,15 @@ func (c *caseState) fastOK(h hdr, m *model, skip map[string]bool, names []string
 		}
 		j++
 	}
-	return j == len(m.fields)
+	if j != len(m.fields) {
+		return false
+	}
+	for _, k := range cookieProbeKeys {
+		if string(realCookieLookup(h, k)) != m.cookieLookup(k) {
+			return false
+		}
+	}
+	return true
 }
 
 func (c *caseState) verifySlow(h hdr, m *model, skip map[string]bool, names []string, bits uint64) []mismatch {
@@ -556,6 +565,11 @@ func (c *caseState) verifySlow(h hdr, m *model, skip map[string]bool, names []st
 	// All(): the whole ordered field list of ordinary names.
 	if got := observedOrdinary(h, m.req); !eqFields(got, m.fields) {
 		mm = append(mm, mismatch{"all-order", "", got, append([]field{}, m.fields...)})
+	}
+	for _, k := range cookieProbeKeys {
+		if got, want := string(realCookieLookup(h, k)), m.cookieLookup(k); got != want {
+			mm = append(mm, mismatch{"cookie-lookup", map[bool]string{true: "Cookie", false: "Set-Cookie"}[m.req], k + " -> " + got, k + " -> " + want})
+		}
 	}
 	return mm
 }
@@ -686,6 +700,34 @@ func reorderOnly(mm []mismatch, m *model, observed []field, opKey string) string
 		}
 	}
 	return "key-order"
+}
+
+// cookie lookups by name: RequestHeader.Cookie(k) returns the value of the first
+// cookie pair named k, ResponseHeader.PeekCookie(k) the whole first Set-Cookie
+// value whose cookie name is k.
+var cookieProbeKeys = []string{"a", "b", "sid", "zz", "k2"}
+
+func (m *model) cookieLookup(k string) string {
+	for _, p := range m.cookies {
+		name, val, _ := strings.Cut(p, "=")
+		if name == k {
+			if m.req {
+				return val
+			}
+			return p
+		}
+	}
+	return ""
+}
+
+func realCookieLookup(h hdr, k string) []byte {
+	switch x := h.(type) {
+	case *fasthttp.RequestHeader:
+		return x.Cookie(k)
+	case *fasthttp.ResponseHeader:
+		return x.PeekCookie(k)
+	}
+	return nil
 }
 
 // ---- wire monitor ------------------------------------------------------------
@@ -1129,27 +1171,44 @@ func runCase(r *mon.Run, i int, ev map[string]int) {
 	}
 
 	rounds := 1
-	if c.rnd.Intn(3) == 0 {
+	switch x := c.rnd.Intn(10); {
+	case x < 3:
 		rounds = 2
+	case x < 4:
+		rounds = 3
 	}
 	for round := 0; round < rounds && !aborted; round++ {
 		var snaps []snapshot
 		origin = ""
 		parsedCookieMid = false
+		fromWire := c.rnd.Intn(100) < 45
+		roundTag := ""
 		if round > 0 {
 			// the same object serves the next sequence, as a pooled header does
 			origin = "reused"
-			c.log = append(c.log, op{Kind: "reuse"})
-			h.Reset()
-			if !c.norm {
-				h.DisableNormalizing()
+			if !fromWire && c.rnd.Intn(3) == 0 {
+				fromWire = true
 			}
-			h.SetNoDefaultContentType(noDefCT)
+			if fromWire && c.rnd.Intn(2) == 0 {
+				// Read prepares the object itself: a second message may be read
+				// into it without Reset in between
+				origin = "reread"
+				roundTag = "reread/"
+				c.ev["rounds_reread_without_reset"]++
+			} else {
+				c.log = append(c.log, op{Kind: "reuse"})
+				h.Reset()
+				if !c.norm {
+					h.DisableNormalizing()
+				}
+				h.SetNoDefaultContentType(noDefCT)
+			}
 			c.ev["rounds_on_reused_object"]++
 		}
+		c.prefix = roundTag + c.sticky
 		m = newModel(c.req, c.norm, noDefCT)
 
-		if c.rnd.Intn(100) < 45 {
+		if fromWire {
 			// start from a header parsed from wire bytes
 			wire, lines, status, cookieLines, cookieMid := c.genWire()
 			if origin != "" {
@@ -1167,9 +1226,13 @@ func runCase(r *mon.Run, i int, ev map[string]int) {
 			}
 			m.status = status
 			c.ev["started_from_parsed_header"]++
+			if roundTag != "" && len(m.cookies) > 0 {
+				c.ev["reread_with_cookies_in_the_second_message"]++
+			}
 			if c.req && cookieMid {
 				parsedCookieMid = true
-				c.prefix = "cookie-mid-collected/"
+				c.sticky = "cookie-mid-collected/"
+				c.prefix = roundTag + c.sticky
 				c.ev["parsed_header_with_cookie_before_other_fields"]++
 			}
 			if c.req && (cookieLines > 1 || c.rnd.Intn(2) == 0) {
@@ -1332,7 +1395,7 @@ func runCase(r *mon.Run, i int, ev map[string]int) {
 func TestC29(t *testing.T) {
 	r := mon.Start(t, "C29")
 	defer r.Finish()
-	r.Rule("case = 1-2 sequences ('rounds') on one header object (the second round re-uses it after Reset, as a pooled header), RequestHeader (even cases) or ResponseHeader (odd), normalisation on/off alternating; a round starts from an empty header or (45%) from a header Read from generated wire bytes (1-8 fields in PRNG order, Cookie/Host/Content-Length at any position, names in any letter case, optional whitespace around values, response status 200/204/304/100/404) with the model initialised from the generated field lines; then 1-12 operations: Set/Add/Del with their Bytes variants, CopyTo, for responses SetStatusCode(204|304|100|200|404), for requests cookie-collecting calls (Cookie, Len, Cookies, DelCookie, SetCookie, PeekKeys, All); names drawn from 4 ordinary names (A, X, Foo-Bar, Accept) and the 9 special names in 4 letter cases; values: distinct counters, odd strings (empty, OWS, CR/LF, NUL, obs-text, 300 bytes), random bytes, Content-Length incl. leading zeros; after every operation Peek/PeekBytes/PeekAll of every name, PeekKeys and All are compared with the model; each round ends with Write -> independent wire parse -> Read -> compare. distinct = (type, normalisation, op kinds used, rounds, #special names touched, #multi-valued names, round trip outcome); non-trivial = a Del/Set hit a present name while another name held >= 2 values, or multi-valued and special names coexist, or a parsed header with a multi-valued name")
+	r.Rule("case = 1-3 sequences ('rounds') on one header object (a later round re-uses it after Reset, as a pooled header, or goes straight into Read of a new message without Reset), RequestHeader (even cases) or ResponseHeader (odd), normalisation on/off alternating; a round starts from an empty header or (45%) from a header Read from generated wire bytes (1-8 fields in PRNG order, Cookie/Host/Content-Length at any position, names in any letter case, optional whitespace around values, response status 200/204/304/100/404) with the model initialised from the generated field lines; then 1-12 operations: Set/Add/Del with their Bytes variants, CopyTo, for responses SetStatusCode(204|304|100|200|404), for requests cookie-collecting calls (Cookie, Len, Cookies, DelCookie, SetCookie, PeekKeys, All); names drawn from 4 ordinary names (A, X, Foo-Bar, Accept) and the 9 special names in 4 letter cases; values: distinct counters, odd strings (empty, OWS, CR/LF, NUL, obs-text, 300 bytes), random bytes, Content-Length incl. leading zeros; after every operation Peek/PeekBytes/PeekAll of every name, PeekKeys, All and cookie lookups by name (Cookie(k) / PeekCookie(k)) are compared with the model; each round ends with Write -> independent wire parse -> Read -> compare. distinct = (type, normalisation, op kinds used, rounds, #special names touched, #multi-valued names, round trip outcome); non-trivial = a Del/Set hit a present name while another name held >= 2 values, or multi-valued and special names coexist, or a parsed header with a multi-valued name")
 	r.Assume("the model (net/textproto canonicalisation, ordered slice) is a faithful reading of the doc comments in header.go: Set replaces the first value, special names single-valued also under Add, Cookie/Set-Cookie accumulate and are observed joined with '; ', Trailer holds a filtered name list, CR and LF in values become spaces; neither SetStatusCode nor Set/Add document any dependence of Content-Length on the status code, so none is modelled; a numeric Content-Length reads back as given (leading zeros kept)")
 	r.Assume("names are restricted to RFC 9110 tokens (where fasthttp's normaliser and textproto agree)")
 	r.Assume("generated wire blocks are well-formed: one Host (requests), at most one line of each single-valued special name, a Content-Length in every response (a response without one is turned into 'Connection: close' by the reader: framing), Connection values keep-alive/Upgrade/close, no forbidden trailer names; two Cookie lines only together with an explicit collecting call before the first Peek")
@@ -1367,5 +1430,7 @@ func TestC29(t *testing.T) {
 		r.Require("content_length_set_under_bodyless_status", n/500)
 		r.Require("content_length_with_leading_zero", n/200)
 		r.Require("status_ops", n/20)
+		r.Require("rounds_reread_without_reset", n/20)
+		r.Require("reread_with_cookies_in_the_second_message", n/100)
 	}
 }
